@@ -9,6 +9,7 @@ mod hist;
 mod iters;
 mod geom;
 mod ops;
+mod serde_fam;
 
 use util::*;
 
@@ -35,6 +36,8 @@ fn main() {
                 14 => ops::gen_c14(&mut out, tier, &mut rng),
                 15 => ops::gen_c15(&mut out, tier, &mut rng),
                 16 | 17 => ops::gen_sort(&mut out, prop, tier, &mut rng),
+                18 => serde_fam::gen_c18(&mut out, tier, &mut rng),
+                19 => serde_fam::gen_c19(&mut out, tier, &mut rng),
                 8 | 9 | 10 => iters::generate(&mut out, prop, tier, &mut rng),
                 11 => hist::gen_c11_iter(&mut out, tier, &mut rng),
                 12 => hist::gen_c12_drain(&mut out, tier, &mut rng),
@@ -57,6 +60,8 @@ fn main() {
                     3 => iters::replay(&mut out, hd[0], &inp),
                     4 | 5 => geom::replay(&mut out, hd[1], &inp),
                     6 => ops::replay(&mut out, hd[0], &inp),
+                    7 => serde_fam::replay_doc(&mut out, &inp),
+                    8 => serde_fam::replay_roundtrip(&mut out, &inp),
                     f => panic!("unknown family {f}"),
                 }
             }
